@@ -177,7 +177,10 @@ func (f *File) ReadFrom(r io.Reader) (int64, error) {
 }
 
 func (f *File) Read(p []byte) (int, error) {
-	if f.std != nil || f.dev != nil {
+	if f.dev != nil {
+		return f.dev.read(p)
+	}
+	if f.std != nil {
 		return 0, io.EOF
 	}
 	seq, ft := op("read", f.name)
